@@ -5,8 +5,8 @@ Layer A model of `univers.versions.ArchLinuxVersion` (scheme `alpm`) and of
 `ArchLinuxVersion` does not override `normalize`, `is_valid` or `build_value`: the value is the
 normalized string (all whitespace removed, then `lstrip("vV")`), valid iff non-empty.  It
 hand-writes `__eq__ __lt__ __gt__ __le__ __ge__` through `arch.vercmp`; `__ne__` is the attrs
-one of `Version` (`not self.__eq__(other)`); defining `__eq__` without `__hash__` sets
-`__hash__ = None`: the class is unhashable.
+one of `Version` (`not self.__eq__(other)`); `__hash__` is hand-written too: it hashes the numbers of
+the epoch and of the version.
 
 Domain: ASCII text (`str.isdigit` / `str.isalpha` / `str.split` are modelled on ASCII only).
 -/
@@ -162,10 +162,29 @@ def verOps : VOps Raw where
   ge a b := vercmp a b != .lt
   ne a b := !(vercmp a b == .eq)
 
-/-- `ArchLinuxVersion.__hash__ is None`: `hash(version)` raises `TypeError` -/
-def hashable : Bool := false
+/-- `re.findall(r"[0-9]+", s)`: the maximal runs of ASCII digits of `s` -/
+def digitRuns : List Char → List (List Char)
+  | [] => []
+  | c :: cs =>
+    if c.isDigit then
+      if cs.head?.any Char.isDigit then
+        match digitRuns cs with
+        | r :: rest => (c :: r) :: rest
+        | [] => [[c]]
+      else [c] :: digitRuns cs
+    else digitRuns cs
 
-/-- no hash is ever computed -/
-def hashKey (_ : Raw) : Unit := ()
+/-- `tuple(int(d) for d in re.findall(r"[0-9]+", s))` -/
+def numbers (s : List Char) : List Nat := (digitRuns s).map natOfDigits
+
+/-- `ArchLinuxVersion.__hash__` is defined -/
+def hashable : Bool := true
+
+/-- `ArchLinuxVersion.__hash__`: `hash((numbers(epoch), numbers(version)))` with
+`epoch, version = value.split(":", 1) if ":" in value else ("0", value)` and
+`version = version.rsplit("-", 1)[0]` (the pkgrel is left out) -/
+def hashKey (r : Raw) : List Nat × List Nat :=
+  let s := split r
+  (numbers s.1, numbers s.2.1)
 
 end Univers.Alpm
